@@ -162,6 +162,44 @@ def check_publish_shape(res, rule, w: Write, ef) -> None:
     # an empty container published and filled later through the location itself is covered by the in-place rule above
 
 
+def _is_invalidation_counter(ctx, w) -> bool:
+    """`Cls.counter += <const>` where every read of `.counter` in the program is either one side of an (in)equality with an instance field
+    `x.<stamp>` or the value stored into such a stamp field: a version counter.  Losing an update under concurrency still changes the value."""
+    st = w.node
+    if not (isinstance(st, ast.AugAssign) and isinstance(st.op, ast.Add) and isinstance(st.value, ast.Constant) and isinstance(st.target, ast.Attribute)):
+        return False
+    name = st.target.attr
+    stamps = set()
+    loads = []
+    for f in ctx.sm.functions:
+        if not f.module.name.startswith('musicxml'):
+            continue
+        pm = {}
+        for n in ast.walk(f.node):
+            for c in ast.iter_child_nodes(n):
+                pm[c] = n
+        for n in ast.walk(f.node):
+            if isinstance(n, ast.Attribute) and n.attr == name and isinstance(n.ctx, ast.Load):
+                par = pm.get(n)
+                if isinstance(par, ast.AugAssign) and par.target is n:
+                    continue
+                loads.append((n, par))
+    if not loads:
+        return False
+    for n, par in loads:
+        if isinstance(par, ast.Compare) and len(par.ops) == 1 and isinstance(par.ops[0], (ast.Eq, ast.NotEq)):
+            other = par.comparators[0] if par.left is n else par.left
+            if isinstance(other, ast.Attribute):
+                stamps.add(other.attr)
+                continue
+            return False
+        if isinstance(par, ast.Assign) and par.value is n and len(par.targets) == 1 and isinstance(par.targets[0], ast.Attribute):
+            stamps.add(par.targets[0].attr)
+            continue
+        return False
+    return bool(stamps)
+
+
 def check_shared_state(ctx, cg, ef, rule: str, entries=None):
     """Every shared write of the API closure is one of the enumerated lazy caches and has the publish shape."""
     res = ctx.res
@@ -180,6 +218,10 @@ def check_shared_state(ctx, cg, ef, rule: str, entries=None):
             owners = '/'.join(sorted(w.owners)) or w.root
             if w.func.name == '__init__' and w.root == 'self':
                 continue       # a constructor initialising its own object
+            if _is_invalidation_counter(ctx, w):
+                res.ok(rule, w.func.fq, f"`{short(w.node, 50)}` bumps a counter that is only ever compared with memo stamps (it can invalidate memos of other instances, "
+                       "never change what they compute)")
+                continue
             res.finding(rule, w.func.fq, f"`{short(w.node, 70)}` does not write state shared between instances/threads",
                         f"{owners}.{w.field} ({w.how}, root {w.root}) is not one of the enumerated idempotent lazy caches",
                         key=f"{rule}|unlisted|{w.func.qualname}|{w.field}|{w.how}", line=getattr(w.node, 'lineno', None))
